@@ -186,6 +186,7 @@ class C07(Prop):
         import workflows.retry_policy as rp
 
         self.rp = rp
+        self._paths = set()
 
     def strategy(self, tier):
         return st.one_of(
